@@ -117,6 +117,9 @@ class Run:
             self.ids[i] = iid
             bs = (self.case.get("begin_settings") or [None] * ninst)[i]
             _begin(client, iid, self.case, bs)
+        if self.case.get("spare"):
+            # a sibling on which no session has been begun
+            self.spare = json.loads(client.post("/start-instance").data)["instance_uuid"]
 
     def close(self):
         for b in self.made:
@@ -294,7 +297,7 @@ def history_strategy(max_n):
         requests = [[draw(st.integers(0, ninst - 1)), draw(req)] for _ in range(n)]
         return {"start": draw(st.sampled_from(["0", "1", "2.5", "8", "9.5", "98"])), "dt": draw(st.sampled_from(["1", "0.5", "0.25"])),
                 "equations": draw(st.sampled_from([["s"], ["s", "f"], ["k", "c", "s"]])), "ninst": ninst, "requests": requests,
-                "two": draw(st.booleans()), "begin_settings": [draw(bset) for _ in range(ninst)],
+                "two": draw(st.booleans()), "spare": draw(st.sampled_from([False, False, True])), "begin_settings": [draw(bset) for _ in range(ninst)],
                 "compress": draw(st.booleans())}
     return build()
 
@@ -305,7 +308,7 @@ def _body(ctx):
         for fault, nt in info["evaluations"]:
             ctx.case({"history": case["requests"], "start": case["start"], "dt": case["dt"], "fault": fault}, nontrivial=nt,
                      labels=["fault:" + ("damage:" + fault["damage"][1] if fault.get("damage") else "crash"), "restart:" + ("lazy" if fault["lazy"] else "startup"),
-                             "managers:%d" % (2 if case.get("two") else 1)] + sorted(set("req:" + r[1][0] for r in case["requests"])) +
+                             "managers:%d" % (2 if case.get("two") else 1)] + (["with-sessionless-sibling"] if case.get("spare") else []) + sorted(set("req:" + r[1][0] for r in case["requests"])) +
                      (["begin-settings"] if any(case.get("begin_settings") or []) else []),
                      key=[case, fault])
         ctx.extra["histories"] += 1
